@@ -123,6 +123,31 @@ Definition ex_clean : cdfa :=
                 [ISub 0 0; ISub 1 0; ILit "x" None 0; ILit "y" None 0])
          [ex_sub "a" "b"; ex_sub "c" "d"].
 
+(** The two mechanisms of the property text are refutations of [unambiguous] on the automata the
+    pinned code produces for the README-style grammars (the check finds the same on Rust's own
+    automata on every run and lists them as known findings). *)
+Theorem C09_refuted_two_levels : ~ unambiguous ex_two_levels.
+Proof.
+  intro U.
+  assert (E : 1 = 2).
+  { apply (U 0 0 2 (ILit "a" None 0) (ILit "a" None 1) "a"%string 1 2); reflexivity. }
+  discriminate.
+Qed.
+Check C09_refuted_two_levels : ~ unambiguous ex_two_levels.
+Print Assumptions C09_refuted_two_levels.
+
+Theorem C09_refuted_permuted_subwords : ~ unambiguous ex_permuted.
+Proof.
+  intro U.
+  assert (E : 1 = 2).
+  { apply (U 0 0 1 (ISub 0 0) (ISub 1 0) "--o=a"%string 1 2); try reflexivity.
+    - exists (ex_sub "a" "b"). split; [reflexivity |]. apply sub_accepts_spec. vm_compute. reflexivity.
+    - exists (ex_sub "b" "a"). split; [reflexivity |]. apply sub_accepts_spec. vm_compute. reflexivity. }
+  discriminate.
+Qed.
+Check C09_refuted_permuted_subwords : ~ unambiguous ex_permuted.
+Print Assumptions C09_refuted_permuted_subwords.
+
 Example ex_C09_inhabited :
   Ambig.find ex_two_levels = Some (mkwit 0 0 2 (Some "a"))
   /\ Ambig.find ex_permuted = Some (mkwit 0 0 1 (Some "--o=a"))
